@@ -6,6 +6,7 @@ mod c02;
 mod c04;
 mod c05;
 mod c11;
+mod c11walk;
 mod c12;
 mod c15;
 mod c18;
@@ -41,6 +42,7 @@ fn main() {
         "C11" => {
             report = Report::new("C11", "pairs/triples of paths over a component alphabet (exhaustive to depth 2, sampled to depth 5, plus arbitrary strings); non-trivial = the two paths differ; distinct by canonical text of the case");
             c11::run(&tier, seed, &mut report);
+            c11walk::run(&tier, seed, &mut report);
         }
         "C12" => {
             report = Report::new("C12", "pairs (subtree, path) of valid apaths: exhaustive to depth 2, sampled extensions (by component and textual) to depth 4; non-trivial = the subtree is a textual prefix of the path");
